@@ -68,3 +68,28 @@ Theorem C01_exclusive_not_in_runtime_pins_refuted :
   | Err _ => False end.
 Proof. exact stale_pin_refuted. Qed.
 Print Assumptions C01_exclusive_not_in_runtime_pins_refuted.
+
+(* ... the UpdateContainer path of K3 is repaired: a refused update gives the container back the allocation it had.
+   For every reachable state and every grant of the normal class in it, releasing the grant and restoring it
+   (supply.Restore, what UpdateResources does when the new allocation fails) succeeds and yields exactly the state
+   before: the container never runs without a grant because of a refused update.  (tree_nestedb: the sharable and
+   isolated sets of a pool lie inside those of the pools above it; evaluated on every observed tree.) *)
+From NV Require Import TA_Cap2 TA_Restore.
+Theorem C01_refused_update_restores_allocation : forall t os s cid g,
+  tree_wfb2 t = true -> tree_nestedb t = true -> forallb nonneg_reserve os = true -> run t (init t) os = Ok s ->
+  grants s !! cid = Some g -> g_type g = CpuNormal -> (g_pool g < length t)%nat ->
+  exists s', ta_restore t (ta_release t s cid) cid g = Ok s' /\ st_eq s' s.
+Proof. exact restore_after_release_reachable. Qed.
+Print Assumptions C01_refused_update_restores_allocation.
+
+Theorem C01_refused_update_nonvacuous :
+  tree_nestedb ex_tree = true /\ tree_wfb2 ex_tree = true /\
+  match run ex_tree (init ex_tree) (firstn 3 ex_ops) with
+  | Ok s => match grants s !! 1%nat with
+            | Some g => match ta_restore ex_tree (ta_release ex_tree s 1) 1 g with
+                        | Ok s' => bool_decide (free_shar s' 1%nat = free_shar s 1%nat) && bool_decide (free_shar s' 2%nat = free_shar s 2%nat) && Nat.eqb (size (grants s')) (size (grants s)) = true
+                        | Err _ => False end
+            | None => False end
+  | Err _ => False end.
+Proof. exact restore_nonvacuous. Qed.
+Print Assumptions C01_refused_update_nonvacuous.
